@@ -14,7 +14,8 @@ import random
 from lib import common
 from lib.hist import KVStore, SQLStore
 
-THEOREMS_TIED = ["C04_readString_encode", "C04_readTags_render", "C04_parse_eose", "C04_parse_event"]
+THEOREMS_TIED = ["C04_readString_encode", "C04_readTags_render", "C04_parse_eose", "C04_parse_event",
+                  "MP.C04_unpackb_packb", "MP.C04_kv_record_roundtrip", "MP.C04_kv_record_refused_iff"]
 
 SPECIAL = ['"', "\\", "\n", "\r", "\t", "\b", "\f", "\x00", "\x01", "\x1f", "\x7f", " ", " ", "é", "\U0001f600",
            "/", "'", "\\u0041", "\\n", "﻿", "￿", " ", "]", "}", ","]
@@ -135,6 +136,118 @@ def frame_case(report, drv, rng, loop):
     report.count("frames")
     report.count("frames_in_model" if all_str else "frames_with_non_string_tag_items")
 
+
+
+# ---- (b2) the LMDB record codec: kv.encode_event / get_event_data / decode_event vs Model/MsgPack -----------------
+
+INT_EDGES = [0, 1, 127, 128, 255, 256, 65535, 65536, 2 ** 31 - 1, 2 ** 31, 2 ** 32 - 1, 2 ** 32, 2 ** 53, 2 ** 63 - 1, 2 ** 63,
+             2 ** 64 - 1, 2 ** 64, 2 ** 70, -1, -31, -32, -33, -127, -128, -129, -32768, -32769, -2 ** 31, -2 ** 31 - 1,
+             -2 ** 63, -2 ** 63 - 1, -2 ** 70]
+LEN_EDGES = [0, 1, 15, 16, 31, 32, 33, 255, 256, 257, 65535, 65536, 65537]
+
+
+def tv(x):
+    """a Python value of an event row as the typed JSON the driver reads (strings and byte strings in hex)"""
+    import struct
+    if x is None:
+        return {"t": "nil"}
+    if isinstance(x, bool):
+        return {"t": "bool", "v": x}
+    if isinstance(x, int):
+        return {"t": "int", "v": str(x)}
+    if isinstance(x, float):
+        return {"t": "float", "v": struct.pack(">d", x).hex()}
+    if isinstance(x, str):
+        return {"t": "str", "v": x.encode("utf-8").hex()}
+    if isinstance(x, (bytes, bytearray)):
+        return {"t": "bin", "v": bytes(x).hex()}
+    if isinstance(x, (list, tuple)):
+        return {"t": "arr", "v": [tv(y) for y in x]}
+    if isinstance(x, dict):
+        flat = []
+        for k, v in x.items():
+            flat += [tv(k), tv(v)]
+        return {"t": "map", "v": flat}
+    raise TypeError(type(x))
+
+
+def rand_value(rng, depth=0):
+    r = rng.random()
+    if r < 0.3:
+        return rng.choice(INT_EDGES) if rng.random() < 0.7 else rng.randint(-2 ** 66, 2 ** 66)
+    if r < 0.55:
+        n = rng.choice(LEN_EDGES[:10]) if rng.random() < 0.5 else rng.randint(0, 40)
+        base = rand_text(rng, min(n, 12))
+        base = "".join(c for c in base if not 0xD800 <= ord(c) <= 0xDFFF)
+        return (base * (n // max(1, len(base)) + 1))[:n] if base else "x" * n
+    if r < 0.63:
+        return rng.choice([True, False, None])
+    if r < 0.72:
+        return rng.choice([1.5, 0.1, 1e20, 1.0, 0.0, -0.0, -2.5e-300, float("inf")])
+    if depth >= 3:
+        return 7
+    if r < 0.9:
+        n = rng.choice([0, 1, 2, 3, 15, 16, 17]) if rng.random() < 0.8 else rng.randint(0, 40)
+        return [rand_value(rng, depth + 1) for _ in range(n)]
+    n = rng.choice([0, 1, 2, 15, 16, 17])
+    return {("k%d" % i) * rng.choice([1, 1, 20]): rand_value(rng, depth + 1) for i in range(n)}
+
+
+def typed_eq(a, b):
+    """equality that tells 1 from 1.0 from true, and -0.0 from 0.0; tuples and lists are the same thing"""
+    return tv(a) == tv(b)
+
+
+def record_case(report, drv, rng, big=False):
+    from nostr_relay.storage import kv
+    from aionostr.event import Event
+    import msgpack
+    tags = [[rand_value(rng, 1) for _ in range(rng.choice([0, 1, 2, 2, 3, 5]))] for _ in range(rng.choice([0, 1, 2, 3, 16, 17]))]
+    if big:
+        # widths that only long payloads reach: str16 / str32, array16 / array32, map16
+        tags.append(["x" * rng.choice([65535, 65536, 70000]), list(range(rng.choice([65535, 65536]))),
+                     {"k%d" % i: i for i in range(rng.choice([16, 65536]))}])
+    content = rand_value(rng, 9)
+    if not isinstance(content, str):
+        content = "c" * rng.choice(LEN_EDGES)
+    ev = Event(id=rng.randbytes(32).hex(), pubkey=rng.randbytes(32).hex(), sig=rng.randbytes(64).hex(),
+               created_at=rng.choice(INT_EDGES) if rng.random() < 0.5 else rng.choice([0, 1700000000, 2 ** 32 - 1]),
+               kind=rng.choice(INT_EDGES) if rng.random() < 0.3 else rng.choice([0, 1, 5, 30023, 65535]),
+               content=content, tags=tags)
+    row = {"id": ev.id, "created": str(ev.created_at), "kind": str(ev.kind), "pubkey": ev.pubkey,
+           "content": ev.content.encode("utf-8").hex(), "tags": tv(ev.tags), "sig": ev.sig}
+    payload = {"kind": "record", "row": row}
+    try:
+        data = kv.encode_event(ev)
+    except Exception as e:
+        data = None
+        err = type(e).__name__
+    m = drv.call({"op": "mp.record", "row": row})
+    report.count("records")
+    if data is None:
+        report.count("records_refused_by_packb")
+        if m.get("data") != "raises":
+            report.correspondence_break("kv.encode_event (packb raises %s)" % err, payload, "raises", str(m.get("data"))[:80])
+        report.case(("record-raises", row["created"], row["kind"], json.dumps(row["tags"])[:200]), nontrivial=True)
+        return
+    if m.get("data") != data.hex():
+        report.correspondence_break("kv.encode_event", payload, data.hex()[:160], str(m.get("data"))[:160])
+    # the implementation's own read path
+    back = kv.decode_event(msgpack.unpackb(data, use_list=False))
+    same = (back.id == ev.id and back.pubkey == ev.pubkey and back.sig == ev.sig and typed_eq(back.created_at, ev.created_at)
+            and typed_eq(back.kind, ev.kind) and typed_eq(back.content, ev.content) and typed_eq(back.tags, ev.tags))
+    if not same:
+        report.property_failure("kv: the record read back (decode_event) is not the event that was written (encode_event)",
+                                payload, None)
+    mback = m.get("back")
+    if mback != row:
+        report.correspondence_break("Model/MsgPack decodeEvent ∘ encodeEvent", payload, "the row", json.dumps(mback)[:160])
+    # the reader alone, on the bytes the real packer wrote
+    u = drv.call({"op": "mp.unpack", "data": data.hex()})
+    if u != tv(msgpack.unpackb(data, use_list=False)):
+        report.correspondence_break("msgpack.unpackb", payload, json.dumps(tv(msgpack.unpackb(data, use_list=False)))[:160],
+                                    json.dumps(u)[:160])
+    report.case(("record", data.hex()[:400]), nontrivial=any(not isinstance(x, str) for t in ev.tags for x in t))
 
 # ---- (c) storage round trips -----------------------------------------------------------------------
 
@@ -337,7 +450,10 @@ def run(report, tier, seed):
         "both backends, about one in eight of them with non-canonical hex (upper-case pubkey, pubkey written in words separated "
         "by blanks / tabs / newlines, blanks inside or after the sig — all of which bytes.fromhex decodes); "
         "non-trivial = the frame needs an escape or carries a non-string item")
-    report.assumptions += ["the codecs (rapidjson, msgpack, SQLite JSON column) are exercised, not modelled",
+    report.assumptions += ["the codecs rapidjson and the SQLite JSON column are exercised, not modelled; the LMDB record codec (msgpack "
+                           "packb / unpackb as kv.encode_event / decode_event use them) is modelled (Model/MsgPack) and compared byte for "
+                           "byte: integers at every width boundary and beyond 64 bits, strings / arrays / objects at every header "
+                           "boundary (15/16, 31/32, 255/256, 65535/65536), floats, booleans, null, nesting",
                            "OK / NOTICE / AUTH frames: the raw text of every frame of websocket sessions with hostile ids, on relays "
                            "with and without an exceeded rate limit, must parse and have a legal shape"]
     from aionostr.key import PrivateKey
@@ -354,6 +470,8 @@ def run(report, tier, seed):
                         replay_store(report, st, r["event"])
         for i in range(300 if tier == "quick" else 6000):
             frame_case(report, drv, rng, loop)
+        for i in range(300 if tier == "quick" else 5000):
+            record_case(report, drv, rng, big=(i % 100 == 50))
         https = {st.backend: make_http(st) for st in stores}
         for i in range(250 if tier == "quick" else 3000):
             for st in stores:
